@@ -164,8 +164,8 @@ RUN_ASSUME = [
 ]
 
 PROPS = {
-    "C01": {"engine": "run", "modelled": RUN_MODELLED + RUN_BINARY, "assumptions": RUN_ASSUME, "extra_props": ["C01Sha"]},
-    "C02": {"engine": "run", "modelled": RUN_MODELLED, "assumptions": RUN_ASSUME},
-    "C10": {"engine": "run", "modelled": RUN_MODELLED + RUN_BINARY + RUN_JSON, "assumptions": RUN_ASSUME, "extra_engines": ["json"], "extra_props": ["C10Json"]},
-    "C14": {"engine": "run", "modelled": RUN_MODELLED + ["binary level (engine cli): flag parsing and dispatch of cli/app (which invocations are forced: --force/-f with task names, with the default task) are observed on the real binary and judged from the side-effect log; the decision table is the cli model of C19/C20"], "assumptions": RUN_ASSUME, "extra_engines": ["cli"]},
+    "C01": {"engine": "run", "modelled": RUN_MODELLED + RUN_BINARY, "assumptions": RUN_ASSUME, "extra_props": ["C01Sha", "FactsRun"]},
+    "C02": {"engine": "run", "modelled": RUN_MODELLED, "assumptions": RUN_ASSUME, "extra_props": ["FactsRun"]},
+    "C10": {"engine": "run", "modelled": RUN_MODELLED + RUN_BINARY + RUN_JSON, "assumptions": RUN_ASSUME, "extra_engines": ["json"], "extra_props": ["C10Json", "FactsRun"]},
+    "C14": {"engine": "run", "modelled": RUN_MODELLED + ["binary level (engine cli): flag parsing and dispatch of cli/app (which invocations are forced: --force/-f with task names, with the default task) are observed on the real binary and judged from the side-effect log; the decision table is the cli model of C19/C20"], "assumptions": RUN_ASSUME, "extra_engines": ["cli"], "extra_props": ["FactsRun"]},
 }
